@@ -300,6 +300,7 @@ func runC06(c *Ctx, prop string) {
 	}
 	// ---------------- MERGE
 	runMerge(c, prop)
+	runInjectorState(c, prop+"-STATE")
 	if prop == "C07" {
 		return
 	}
@@ -473,5 +474,47 @@ func runC06(c *Ctx, prop string) {
 		}
 		c.Sites++
 		c.Check(len(bad) == 0, "C06-SPAN", fnName(parse), "span", parse.Pos(), "Start = field.Pos(), End = field.End()", strings.Join(bad, "; "))
+	}
+	runFreshFileSet(c, "C06-SPAN")
+}
+
+// runFreshFileSet: areas store token.Pos values as byte offsets (+1) into the file. That is
+// only what a token.Pos means for the first file of a FileSet, so every file must be parsed
+// into its own, freshly created FileSet: the FileSet argument of parser.ParseFile has to be the
+// result of token.NewFileSet() called in the same function invocation. A shared (package-level,
+// cached, passed-in) FileSet shifts the positions of every file after the first one.
+func runFreshFileSet(c *Ctx, rule string) {
+	p := c.P
+	parse := p.Func("file", "ParseFile")
+	if parse == nil {
+		return
+	}
+	n := 0
+	for fn := range reachableFrom(parse) {
+		for _, b := range fn.Blocks {
+			for _, ins := range b.Instrs {
+				call, ok := ins.(*ssa.Call)
+				if !ok || calleeName(&call.Call) != "go/parser.ParseFile" {
+					continue
+				}
+				n++
+				c.Sites++
+				src, isCall := call.Call.Args[0].(*ssa.Call)
+				fresh := isCall && calleeName(&src.Call) == "go/token.NewFileSet" && src.Parent() == fn
+				if fresh {
+					// not inside a loop that parses several files with it
+					for _, l := range naturalLoops(fn) {
+						if l.Body[call.Block()] && !l.Body[src.Block()] {
+							fresh = false
+						}
+					}
+				}
+				c.Check(fresh, rule, fnName(fn), "fresh-fileset", call.Pos(), "each file is parsed into its own token.NewFileSet(): Pos = offset+1",
+					"the file is parsed into a FileSet that is not created for this very file: token.Pos values of every file after the first are shifted by the sizes of the earlier ones, yet they are used as byte offsets into this file (slice out of range, or bytes spliced at the wrong place)")
+			}
+		}
+	}
+	if n == 0 {
+		c.Unk(rule, fnName(parse), "fresh-fileset", parse.Pos(), "no go/parser.ParseFile call found")
 	}
 }
